@@ -94,6 +94,22 @@ def port(required=True, valid_type=None, validator=None, default=None):
     return {'kind': 'port', 'required': required, 'valid_type': valid_type, 'validator': validator, 'default': default}
 
 
+_SEP_SPECS = {}
+
+
+def spec_class_for(sep, base=None):
+    """A ProcessSpec whose port namespaces use ``sep`` as the namespace separator (the documented extension hooks
+    PortNamespace.NAMESPACE_SEPARATOR / ProcessSpec.PORT_NAMESPACE_TYPE / Process._spec_class)."""
+    from plumpy import PortNamespace, ProcessSpec
+
+    base = base or ProcessSpec
+    key = (sep, base)
+    if key not in _SEP_SPECS:
+        ns_cls = type('SepNamespace', (base.PORT_NAMESPACE_TYPE,), {'NAMESPACE_SEPARATOR': sep})
+        _SEP_SPECS[key] = type('SepSpec', (base,), {'PORT_NAMESPACE_TYPE': ns_cls})
+    return _SEP_SPECS[key]
+
+
 def build_namespace(spec, which, tree):
     """Declare ``tree`` as the inputs (which='input') or outputs (which='output') of ProcessSpec ``spec``."""
     top = spec.inputs if which == 'input' else spec.outputs
@@ -123,7 +139,7 @@ def _declare(spec, which, prefix, tree):
             if sub.get('help') is not None:
                 kwargs['help'] = sub['help']
             getattr(spec, which + '_namespace')(path, **kwargs)
-            _declare(spec, which, path + '.', sub)
+            _declare(spec, which, path + spec.namespace_separator, sub)
         else:
             kwargs = {'required': sub['required'], 'validator': VALIDATORS[sub['validator']]}
             if sub['valid_type'] is not None:
